@@ -184,6 +184,27 @@ def cexHistory : List LEv :=
   && cexA.persist && cexB.persist && !cexA.resetOnLogon && !cexA.resetOnLogout && !cexA.resetOnDisconnect
   && !cexB.resetOnLogon && !cexB.resetOnLogout && !cexB.resetOnDisconnect
 
+/-- the mechanism behind the counterexample, for every state: an application message whose payload field is empty,
+    arriving exactly at the expected number, is refused by the validator (Reject, reason 4, RefTagID 9000), its number
+    is consumed and it is NOT handed to the application -/
+theorem C05_empty_payload_is_consumed (s : Sess) (pcfg : Cfg) (hst : s.cfg.sender = pcfg.target) (hts : s.cfg.target = pcfg.sender)
+    (hbs : s.cfg.bs = pcfg.bs) (hs : pcfg.sender ≠ "") (ht : pcfg.target ≠ "") (hn : inInt64 s.store.target) :
+    inSessionFixMsgIn s (toIn pcfg (appMsg s.store.target "")) =
+      (incrTarget (doReject s (toIn pcfg (appMsg s.store.target "")) 4 (some 9000) false), .inSession) := by
+  have hk : kindOf (toIn pcfg (appMsg s.store.target "")) = "D" := toIn_kind _ _
+  have hseq : getInt (toIn pcfg (appMsg s.store.target "")) 34 = .val s.store.target := getInt_of_get? _ _ _ (toIn_get34 _ _) hn
+  have hv : verifySelect s (toIn pcfg (appMsg s.store.target "")) true true true = (s, some (noValue 9000)) := by
+    rw [verifySelect_complete s _ true true true (by unfold BeginOK; rw [toIn_get8, hbs])
+      (by unfold CompOK; rw [toIn_get49, toIn_get56, hst, hts]; exact ⟨rfl, rfl, (isEmpty_false_iff _).2 hs, (isEmpty_false_iff _).2 ht⟩)
+      (Or.inr (Or.inr ⟨0, getTime_at0 _ _ (toIn_get52 _ _), by omega, by omega⟩))
+      ⟨fun _ => ⟨_, hseq, Int.le_refl _⟩, fun _ => ⟨_, hseq, Int.le_refl _⟩⟩]
+    simp only [if_true]
+    unfold verifyAppImpl
+    rw [validate_empty_payload pcfg _ hs ht]
+  unfold inSessionFixMsgIn
+  simp only [hk, hv]
+  simp [processReject, noValue]
+
 /-! ### non-vacuity of `C05_safety` (interpreter): a history with a cut, a restart, a gap, a resend and a gap fill -/
 
 instance (l : LSt) : Decidable (Bnd l) := by unfold Bnd; infer_instance
@@ -219,6 +240,7 @@ Clause checklist (properties.jsonl C05)
 * "sequence resets disabled"                                           : hypotheses resetOnLogon / resetOnLogout / resetOnDisconnect = false
 * per engine: in order and exactly once by number                      : C05_each_side_in_order (C01)
 * the links carry messages faithfully; numbers survive the wire        : C05_link_faithful, C05_number_round_trip
+* why the payload condition is needed, for every state                 : C05_empty_payload_is_consumed
 * side conditions of C05_safety, all satisfiable (demoHistory, #guard) : non-empty payload ids (an empty tag value is rejected
     as malformed by the peer and consumed: `cexHistory`, the statement without this condition `C05_safety_full` is FALSE);
     numbers within Go's `int` (`C05_numbers_fit`).  (Empty CompIDs need no condition: no Logon is then ever accepted
